@@ -117,6 +117,35 @@ class Runner:
             return b
         return a
 
+    def shared(self, l, r):
+        """Both operands as views of ONE buffer (a caller slicing one row-id log two ways): whenever the values allow it
+        the two views start at the same address - one contiguous, one with stride 2 - (seeded c08h: an "identical
+        operands" shortcut that compared start address and length but not the strides); identical operands are handed
+        over as the same object."""
+        np = self.np
+        if l is None or r is None:
+            return self.arr(l), self.arr(r)
+        l, r = list(l), list(r)
+        if l == r and l:
+            a = self.arr(l)
+            return a, a
+        def build(c, s):          # c contiguous, s strided by 2, same start
+            if not c or not s or any(s[j] != c[2 * j] for j in range(len(s)) if 2 * j < len(c)):
+                return None
+            buf = np.full(max(len(c), 2 * len(s)), 0xFFFFFFFF, dtype=np.uint32)
+            buf[0:2 * len(s):2] = s
+            buf[:len(c)] = c
+            return buf[:len(c)], buf[0:2 * len(s):2]
+        v = build(l, r)
+        if v is not None:
+            return v
+        v = build(r, l)
+        if v is not None:
+            return v[1], v[0]
+        # no common start possible: two disjoint slices of one buffer
+        buf = np.array(l + r, dtype=np.uint32)
+        return buf[:len(l)], buf[len(l):]
+
     def abstract(self, res):
         """tuple of ints (a 1-D uint32 array) | None | {"bad": ..}"""
         np = self.np
@@ -213,7 +242,10 @@ class Runner:
             if form:
                 # same values in another FORM: a non-contiguous uint32 view (the kernels take strided memoryviews),
                 # or a read-only array (const memoryviews accept those)
-                la, ra = self.reform(la, form), self.reform(ra, form)
+                if form == "sharedbuf":
+                    la, ra = self.shared(l, r)
+                else:
+                    la, ra = self.reform(la, form), self.reform(ra, form)
             out.append(self.explicit_entry(self.call_bin(op, la, ra, copy)))
             if (la is not None and la.tolist() != list(l)) or (ra is not None and ra.tolist() != list(r)):
                 self.mutated.append({"suite": suite.get("name"), "op": op, "l": l, "r": r,
